@@ -31,6 +31,7 @@
 
 DBUS_BEGIN_DECLS
 
+dbus_bool_t      _dbus_pending_call_has_timeout_error_unlocked   (DBusPendingCall    *pending);
 dbus_bool_t      _dbus_pending_call_is_timeout_added_unlocked    (DBusPendingCall    *pending);
 void             _dbus_pending_call_set_timeout_added_unlocked   (DBusPendingCall    *pending,
                                                                   dbus_bool_t         is_added);
